@@ -47,7 +47,8 @@ def mir_recovery(cfg):
 
 
 def obligations():
-    return _own() + (common.shared('C12', ['O12.1-commit'], 'O8', 'fork switch: rollback of the index precedes the new last state (a crash in between leaves the old tip with a rolled-back index, which re-syncs)'))
+    return _own() + (common.shared('C12', ['O12.1-commit'], 'O8', 'fork switch: rollback of the index precedes the new last state (a crash in between leaves the old tip with a rolled-back index, which re-syncs)') +
+                     common.shared('C06', ['O6.1-filters', 'O6.1-filters-t'], 'O8', 'filter batch: the filtered height is persisted after the matched-block record / the script numbers of the same batch (a crash in between repeats the batch instead of losing it)'))
 
 
 def _own():
